@@ -282,6 +282,8 @@ def mb_reader_rules(ck, P):
 
 def rules(ck, P):
     mb_reader_rules(ck, P)
+    from . import c04 as _c04
+    _c04.reader_declares_rule(ck, P, "R-CODE")
     # PMTiles tile ids: Hilbert digit tables, quadrant transform, level base, step order (finite tables and term shapes)
     from . import hilbert as _hilbert
     _hilbert.rules(ck, P)
